@@ -6,8 +6,11 @@ pub assume_specification [<isize>::checked_abs] (a: isize) -> (r: Option<isize>)
 pub assume_specification [<i64>::checked_pow] (a: i64, e: u32) -> (r: Option<i64>)
     ensures i64::MIN <= pow_int(a as int, e as nat) <= i64::MAX ==> r == Some(pow_int(a as int, e as nat) as i64),
             !(i64::MIN <= pow_int(a as int, e as nat) <= i64::MAX) ==> r is None;
+// arithmetic shift right of a signed integer is flooring division by 2^s (std docs)
 pub assume_specification [<i64>::checked_shr] (a: i64, s: u32) -> (r: Option<i64>)
-    ensures s < 64 ==> r == Some((a >> s) as i64), s >= 64 ==> r is None;
+    ensures s < 64 ==> (r matches Some(v) && v == fdiv(a as int, pow_int(2, s as nat))), s >= 64 ==> r is None;
 pub assume_specification [<i64>::leading_zeros] (a: i64) -> (r: u32)
     ensures r <= 64, a == 0 ==> r == 64, a < 0 ==> r == 0,
             a > 0 ==> 1 <= r <= 63 && pow_int(2, (63 - r) as nat) <= a < pow_int(2, (64 - r) as nat);
+pub assume_specification<T, E> [core::result::Result::<T, E>::unwrap_or] (s: Result<T, E>, d: T) -> (r: T)
+    ensures r == (match s { Ok(v) => v, Err(_) => d });
